@@ -45,6 +45,7 @@ struct PairCfg {
     bool client_trusts_server = true;
     bool forge_server_cert = false;        // server presents a certificate whose issuer signature is invalid
     bool forge_client_cert = false;
+    bool chain = false;                    // both identities are presented as leaf + issuer certificate (two chain elements on the wire)
     int send_sni = 0;                      // the client sends its expected name as server_name (2: + ALPN, 3: + a private extension)
     int max_frag = 0;                      // client requests max_fragment_length
     int forge_mode = 0;                    // 0: a bit of the issuer's signature flipped; 1: issuer name altered + the trusted CA certificate's own signature bytes copied in
